@@ -284,6 +284,108 @@ Proof. reflexivity. Qed.
 Print Assumptions C14_generated_facts_present.
 
 (* ====================================================================================== *)
+(* ---- JSON transport, strings without a data premise, C03 bridge (audit F1-F3) ---- *)
+From NT Require DictJson CaseC14Json.
+From NT Require WF.
+Import DictJson CaseC14Json.
+
+(* "also after a JSON dump/load of the structure".  [json_rt] is what
+   json.loads(json.dumps v) is on the value kinds of the AST: a tuple comes back
+   as a list, everything else unchanged (the correspondence applies it between
+   to_dict_list and from_dict, and the harness compares the real json round trip
+   with it on every case).  The structure to_dict_list builds is a fixed point of
+   it for every serialisation mapper that writes JSON-able values ([sm_json]:
+   tuple-free in, tuple-free out), in particular without a mapper *)
+Theorem C14_json_transport : forall sm : smapper, sm_json sm ->
+  forall f : forest, map json_rt (to_dict_list sm f) = to_dict_list sm f.
+Proof. exact to_dict_list_json. Qed.
+Print Assumptions C14_json_transport.
+
+Theorem C14_json_transport_plain : forall f : forest, map json_rt (to_dict_list sm_none f) = to_dict_list sm_none f.
+Proof. exact (to_dict_list_json sm_none sm_none_json). Qed.
+Print Assumptions C14_json_transport_plain.
+
+(* the transport itself: identity exactly on tuple-free values, never yields a tuple, idempotent *)
+Theorem C14_json_rt_spec : forall v : jv,
+  (tuple_free v = true -> json_rt v = v) /\ tuple_free (json_rt v) = true /\ json_rt (json_rt v) = json_rt v.
+Proof. exact (fun v => conj (json_rt_fixed v) (conj (json_rt_tuple_free v) (json_rt_idem v))). Qed.
+Print Assumptions C14_json_rt_spec.
+
+(* the round trip THROUGH the transport *)
+Theorem C14_roundtrip_after_json : forall (sm : smapper) (dd : dmapper) (next : nat) (f : forest),
+  sm_json sm -> sm_kids sm -> sibuniq_f f -> Forall (allinfo (inverse_on sm dd)) f ->
+  exists f', tree_from_dict dd next (map json_rt (to_dict_list sm f)) = inl f' /\
+             Forall2 iso f f' /\ ids f' = seq (S next) (size_f f).
+Proof. exact roundtrip_after_json. Qed.
+Print Assumptions C14_roundtrip_after_json.
+
+(* string data, no mapper, through JSON, and NO premise about the rebuilt data:
+   Python's str equality and hash are functions of the characters ([eqc_of],
+   [hash_of], arbitrary); the payloads of the tree are str payloads
+   ([str_payload]: is a str, hash / ==-class are those of its characters);
+   [raw_str] is Python's reading of a JSON string.  Then the data is reproduced
+   ([node_agrees] at every pre-order position: same ==-class, hash, str-ness,
+   characters, data_id), not assumed *)
+Theorem C14_roundtrip_strings_no_premise : forall (hash_of eqc_of : text -> Z) (next : nat) (f : forest),
+  sibuniq_f f -> (forall t, In t (pre_f f) -> str_payload hash_of eqc_of (rinfo t)) ->
+  exists f', tree_from_dict (dd_raw (raw_str hash_of eqc_of)) next (map json_rt (to_dict_list sm_none f)) = inl f' /\
+             Forall2 iso f f' /\ ids f' = seq (S next) (size_f f) /\
+             Forall2 node_agrees (pre_f f) (pre_f f').
+Proof. exact roundtrip_strings_wf. Qed.
+Print Assumptions C14_roundtrip_strings_no_premise.
+
+Example C14_ex_strings_no_premise_hyps :
+  sibuniq_f ex_f /\ (forall t, In t (pre_f ex_f) -> str_payload ex_hash ex_eqc (rinfo t)).
+Proof. exact (conj ex_sibuniq ex_str_payloads). Qed.
+
+(* outside the domain, named: a tuple-valued data_id (possible through a
+   calc_data_id hook; DataIdType is str|int) is not JSON-stable – what comes back
+   holds a list and from_dict refuses it with TypeError; and a mapper that writes
+   a tuple is not [sm_json] and its dump is changed by the transport *)
+Example C14_ex_tuple_data_id :
+  tuple_free ex_tuple_item = false /\
+  json_rt ex_tuple_item = JDict [(k_data, JStr [97%Z]); (k_data_id, JList [JStr [107%Z]; JStr [97%Z]])] /\
+  json_rt ex_tuple_item <> ex_tuple_item /\
+  tree_from_dict (dd_raw ex_raw) 0 [json_rt ex_tuple_item] = inr E_TYPE.
+Proof. exact ex_tuple_id. Qed.
+
+Example C14_ex_tuple_mapper : forall tbl, ~ sm_json (sm_of (SMtuple tbl)).
+Proof. exact sm_tuple_not_json. Qed.
+
+(* the inverse-pair hypothesis asked only for the dicts that occur
+   ([inverse_on_c]: the node's head dict, with or without a "children" entry
+   appended) – weaker than [inverse_on], hence a stronger round-trip theorem; the
+   table-driven decoders the correspondence runs satisfy it (Example below),
+   which they cannot do for [inverse_on] (arbitrary association lists) *)
+Theorem C14_roundtrip_occurring_dicts : forall (sm : smapper) (dd : dmapper) (next : nat) (f : forest),
+  sm_json sm -> sm_kids sm -> sibuniq_f f -> Forall (allinfo (inverse_on_c sm dd)) f ->
+  exists f', tree_from_dict dd next (map json_rt (to_dict_list sm f)) = inl f' /\
+             Forall2 iso f f' /\ ids f' = seq (S next) (size_f f).
+Proof. exact roundtrip_c. Qed.
+Print Assumptions C14_roundtrip_occurring_dicts.
+
+Theorem C14_inverse_on_implies_occurring : forall sm dd i, inverse_on sm dd i -> inverse_on_c sm dd i.
+Proof. exact inverse_on_weaken. Qed.
+Print Assumptions C14_inverse_on_implies_occurring.
+
+(* the decoder [run14] executes for the mapper kind "extra" (CaseC14.dd_for /
+   dd_head over its table), on the 4-node example tree with a clone and an
+   explicit id: hypotheses hold, so the theorem covers that correspondence run *)
+Example C14_ex_table_decoder :
+  sm_json ex_sm_extra /\ sm_kids ex_sm_extra /\
+  Forall (allinfo (inverse_on_c ex_sm_extra (dd_for (SMextra ex_tbl) ex_dt))) ex_g /\
+  exists f', tree_from_dict (dd_for (SMextra ex_tbl) ex_dt) 4 (map json_rt (to_dict_list ex_sm_extra ex_g)) = inl f' /\
+             Forall2 iso ex_g f'.
+Proof.
+  exact (conj ex_sm_extra_json (conj ex_sm_extra_kids (conj ex_table_decoder_inverse ex_table_decoder_roundtrip))).
+Qed.
+
+(* the hypothesis of the round-trip theorems is the C03 invariant predicate of
+   the mutation machine (preserved by every operation: C01/C03) *)
+Theorem C14_sibuniq_is_C03_invariant : forall f : forest, sibuniq_f f <-> WF.SU f.
+Proof. exact sibuniq_f_SU. Qed.
+Print Assumptions C14_sibuniq_is_C03_invariant.
+
 (* Glue C14 <-> C04/C01 (theories/Glue/GlueFromDict.v).  from_dict is modelled twice: here
    (Forest/DictList.v: JSON items read through a deserialisation step [dd], identities assigned by
    [renum_f] afterwards) and in the mutation machine (Mut/Machine.v [op_from_dict] / [OTreeFromDict]:
